@@ -84,6 +84,7 @@ type Contract struct {
 	ParamSpecs map[string]string // param -> named contract for func-typed parameters / values
 	Lets       []LetDef          // "let x = expr" evaluated in the pre-state
 	Sets       []SetDef          // "sets ghost(args) := expr": ghost updates performed at function exit
+	SpawnSets  []SetDef          // "spawnsets ghost(args) := expr": ghost updates visible to the spawner at `go f(...)`
 	Used       bool
 }
 
@@ -165,7 +166,7 @@ func NewSpecSet() *SpecSet {
 	return &SpecSet{Contracts: map[string]*Contract{}, Ghosts: map[string]*GhostDecl{}, Defines: map[string]*DefineDecl{}, FieldAnn: map[string]map[string]string{}}
 }
 
-var clauseKeywords = map[string]bool{"func": true, "after": true, "preserves": true, "requires": true, "ensures": true, "assigns": true, "loop": true,
+var clauseKeywords = map[string]bool{"func": true, "spawnsets": true, "after": true, "preserves": true, "requires": true, "ensures": true, "assigns": true, "loop": true,
 	"ghost": true, "pure": true, "define": true, "axiom": true, "package": true, "flag": true, "param": true, "let": true,
 	"field": true, "latch": true, "extern": true, "sets": true, "counter": true}
 
@@ -288,6 +289,19 @@ func (ss *SpecSet) LoadSpecFile(path string, pkgPrefix string) error {
 				return fail(err)
 			}
 			cur.Sets = append(cur.Sets, SetDef{Target: strings.TrimSpace(rest[:i]), E: e, Line: where})
+		case "spawnsets":
+			if cur == nil {
+				return fail(fmt.Errorf("clause outside func"))
+			}
+			i := strings.Index(rest, ":=")
+			if i < 0 {
+				return fail(fmt.Errorf("spawnsets target := expr"))
+			}
+			e, err := ParseExpr(rest[i+2:])
+			if err != nil {
+				return fail(err)
+			}
+			cur.SpawnSets = append(cur.SpawnSets, SetDef{Target: strings.TrimSpace(rest[:i]), E: e, Line: where})
 		case "let":
 			if cur == nil {
 				return fail(fmt.Errorf("clause outside func"))
